@@ -318,7 +318,11 @@ func (g *Gen) genInt(n int) *Term {
 			if g.NoCalls {
 				continue
 			}
-			switch r.Intn(7) {
+			switch r.Intn(9) {
+			case 7:
+				return must(Call(g.Sc, "AddA", g.genInt(n-1)))
+			case 8:
+				return must(Call(g.Sc, "FnEnv", g.genInt(n-1)))
 			case 0:
 				return must(Call(g.Sc, "FnI", g.genInt(n-1)))
 			case 1:
